@@ -596,21 +596,21 @@ def seed_brute(c1, c2, mat, gap_open, gap_ext, forbid_adjacent, seed, direction)
 def xdrop_ungapped(a, b, mat, threshold):
     """Exact X-drop extension without gaps: walk along the diagonal, keep the
     maximum of the running score, stop as soon as the running score is more
-    than ``threshold`` below the maximum.  Returns (max score, set of lengths
-    that reach it before the stop)."""
+    than ``threshold`` below the maximum.  Returns (max score, True if the
+    running score was at some point exactly ``threshold`` below the maximum -
+    the boundary of the stop rule)."""
     total = 0
     best = 0
-    lengths = {0}
+    boundary = False
     for k in range(min(len(a), len(b))):
         total += mat[a[k]][b[k]]
-        if total > best:
+        if total >= best:
             best = total
-            lengths = {k + 1}
-        elif total == best:
-            lengths.add(k + 1)
         elif best - total > threshold:
             break
-    return best, lengths
+        elif best - total == threshold:
+            boundary = True
+    return best, boundary
 
 
 # ----------------------------------------------------------------------------
